@@ -49,6 +49,10 @@ NONTRIVIAL = {
     'C14': ('>=1 dispatch was rejected', lambda F, w, res: bool(F.rejected)),
     'C15': ('wait_until_idle was called while the bus had unfinished work',
             lambda F, w, res: _idle_with_work(F)),
+    'C17': ('>=2 WAL lines were written (or an I/O fault fired)',
+            lambda F, w, res: len(res.get('io_texts', [])) >= 2 or bool(res.get('io_fired'))),
+    'C18': ('>=1 expect() call ended while >=1 event of its type was processed during the call',
+            lambda F, w, res: any(r[2] == 'expect_end' for r in F.expects) and bool(F.pe)),
     'C16': ('stop()/cancel was injected while the bus had queued or running work',
             lambda F, w, res: bool(F.stops or F.cancels)),
 }
@@ -119,6 +123,10 @@ BUS_PROPS = {
                 profiles=[('flood_caller', 3), ('flood_handler', 4), ('backlog', 1), ('small_history', 1)]),
     'C15': dict(oracle=lambda F, w: oracle.c15(F),
                 profiles=[('idle_race', 4), ('errors', 1), ('timeouts', 1), ('multi_fwd', 2)]),
+    'C17': dict(oracle=lambda F, w: oracle.c17(F, w),
+                profiles=[('wal', 4), ('wal_faults', 3), ('wal_enum', 3)]),
+    'C18': dict(oracle=lambda F, w: oracle.c18(F, w),
+                profiles=[('expect', 1)]),
     'C16': dict(oracle=lambda F, w: oracle.c16(F),
                 profiles=[('stop', 3), ('stop_enum', 3)]),
 }
@@ -156,6 +164,10 @@ def evaluate_bus(prop, sc, keep=False):
     faults['bus_stop'] = len(F.stops)
     faults['task_cancel'] = len(F.cancels)
     faults['slow_sync_handler'] = sum(1 for h in sc['handlers'] for op in h.get('prog', []) if op[0] == 'burn')
+    for k, n in (res.get('io_fired') or {}).items():
+        faults['io_' + k] = n
+    if res.get('io_ops') and any((sc.get('faults', {}).get('io', {}).get('latency') or [0])):
+        faults['io_latency'] = len(res['io_ops'])
     out['faults'] = {k: v for k, v in faults.items() if v}
     probes = collections.Counter()
     probes['inline_processing'] = sum(1 for lst in F.pe.values() for p in lst if p[2].startswith('inline'))
